@@ -569,8 +569,60 @@ func StructFields(pkgs []*packages.Package) []string {
 			}
 		}
 	}
+	// package-level variables, as fields of the pseudo-struct <pkgpath>.<globals>
+	for _, pk := range pkgs {
+		if !strings.HasPrefix(pk.PkgPath, Module) || strings.HasSuffix(pk.PkgPath, "/pb") {
+			continue
+		}
+		sc := pk.Types.Scope()
+		for _, name := range sc.Names() {
+			if v, ok := sc.Lookup(name).(*types.Var); ok {
+				out = append(out, pk.PkgPath+".<globals>\t"+name+"\t"+types.TypeString(v.Type(), nil))
+			}
+			if k, ok := sc.Lookup(name).(*types.Const); ok {
+				out = append(out, pk.PkgPath+".<consts>\t"+name+"\t"+types.TypeString(k.Type(), nil))
+			}
+		}
+	}
 	sort.Strings(out)
 	return out
+}
+
+// Const returns the package-level constant rel.name, or the constant that took its name's place (the package lost
+// this known constant and gained exactly one of the same type).
+func (p *Prog) Const(rel, name string) *types.Const {
+	tp := p.Pkg(rel)
+	if tp == nil {
+		return nil
+	}
+	if k, ok := tp.Scope().Lookup(name).(*types.Const); ok {
+		return k
+	}
+	known := DefaultFields[tp.Path()+".<consts>"]
+	wantT, ok := known[name]
+	if !ok {
+		return nil
+	}
+	lost := 0
+	for n, t := range known {
+		if t == wantT {
+			if _, still := tp.Scope().Lookup(n).(*types.Const); !still {
+				lost++
+			}
+		}
+	}
+	var gained []*types.Const
+	for _, n := range tp.Scope().Names() {
+		if k, isK := tp.Scope().Lookup(n).(*types.Const); isK {
+			if _, wasKnown := known[n]; !wasKnown && types.TypeString(k.Type(), nil) == wantT {
+				gained = append(gained, k)
+			}
+		}
+	}
+	if lost == 1 && len(gained) == 1 {
+		return gained[0]
+	}
+	return nil
 }
 
 // Global returns the package-level variable rel.name.
@@ -584,7 +636,42 @@ func (p *Prog) Global(rel, name string) *ssa.Global {
 		return nil
 	}
 	g, _ := sp.Members[name].(*ssa.Global)
-	return g
+	if g != nil {
+		return g
+	}
+	// renamed? the package lost this known variable and gained exactly one of the same type (known globals are
+	// kept in tables/known_fields.txt under the pseudo-struct "<pkgpath>.<globals>")
+	known := DefaultFields[tp.Path()+".<globals>"]
+	wantT, ok := known[name]
+	if !ok {
+		return nil
+	}
+	lost := 0
+	for n, t := range known {
+		if t != wantT {
+			continue
+		}
+		if _, still := sp.Members[n].(*ssa.Global); !still {
+			lost++
+		}
+	}
+	var gained []*ssa.Global
+	for n, m := range sp.Members {
+		gl, isG := m.(*ssa.Global)
+		if !isG || gl.Object() == nil {
+			continue
+		}
+		if _, wasKnown := known[n]; wasKnown {
+			continue
+		}
+		if v, isVar := gl.Object().(*types.Var); isVar && types.TypeString(v.Type(), nil) == wantT {
+			gained = append(gained, gl)
+		}
+	}
+	if lost == 1 && len(gained) == 1 {
+		return gained[0]
+	}
+	return nil
 }
 
 // FuncName renders a function name relative to the module.
